@@ -53,8 +53,14 @@ func (propC06) Gen(seed uint64, tier string, idx int) any {
 		p.Img = GenImgSpec(r, 1, 80, 1)
 		p.Opt = GenLossyOpts(r, 5, true)
 	}
+	if r.Pct(2) {
+		// large, statistically uniform pictures (segment map corner cases, > 32768 tokens)
+		p.Img.Family = r.PickS("patch", "patch", "noise", "flat", "regions")
+		p.Img.W, p.Img.H = 16*r.Range(16, 40)-r.Intn(2), 16*r.Range(16, 40)-r.Intn(2)
+		p.Opt.Pass, p.Opt.TargetSize, p.Opt.TargetPSNR = -1, 0, 0
+	}
 	switch p.Img.Type {
-	case "paletted", "nrgba64":
+	case "paletted", "nrgba64", "nrgba64sub", "palsub":
 		p.Img.Type = "nrgba"
 	}
 	if r.Pct(30) {
